@@ -58,6 +58,10 @@ def generate_with_relative_time_(
 
             if has_result:
                 observer.on_next(result)
+                if mad.is_disposed:
+                    # unsubscribed from inside on_next: do not run the
+                    # user's iterate / condition / time_mapper any more
+                    return
 
             try:
                 if first:
